@@ -257,8 +257,8 @@ def doUnsubscribe (st : State) (c m x rid : Nat) : State × Out :=
         match st.subs[k]? with
         | none => (st, .bad)
         | some s =>
-          ({ st with subs := st.subs.set k { s with inTable := false, unsubscribed := true },
-                     conns := st.conns.set c (cn.push (.unsub rid true)) }, .bool true)
+          -- `s.conn = c` by the key, so `put` writes the entry and connection `c`
+          (put st k { s with inTable := false, unsubscribed := true } (cn.push (.unsub rid true)), .bool true)
 
 def doConnClose (st : State) (c : Nat) : State × Out :=
   match st.conns[c]? with
